@@ -153,6 +153,8 @@ impl Compiler {
     //@  ensures r matches Ok(j) ==> final(self).upvalues@.len() <= old(self).upvalues@.len() + 1
     //@  ensures r is Err ==> final(self).upvalues@ == old(self).upvalues@ && old(self).upvalues@.len() == 256
     //@  ensures r is Err ==> forall|j: int| 0 <= j < old(self).upvalues@.len() ==> upvalue_pair(#[trigger] old(self).upvalues@[j]) != (index, is_local)
+    //@  ensures r matches Err(e) ==> e is TooManyClosureVars
+    //@  ensures final(self).scope_depth == old(self).scope_depth && final(self).kind == old(self).kind
     //@  loop 0 invariant __k0 <= self.upvalues.len(), upvalue_count == self.upvalues.len(), *self == *old(self), old(self).wf()
     //@  loop 0 invariant forall|j: int| 0 <= j < __k0 ==> upvalue_pair(#[trigger] self.upvalues[j]) != (index, is_local)
     //@  loop 0 decreases self.upvalues.len() - __k0
@@ -242,6 +244,49 @@ spec fn same_scope_duplicate(locals: Seq<Local>, d: usize, name: Seq<char>) -> b
     if locals.len() == 0 { false }
     else if locals.last().depth.is_some() && locals.last().depth.unwrap() < d { false }
     else { locals.last().name@ == name || same_scope_duplicate(locals.drop_last(), d, name) }
+}
+
+
+// ------------------------------------------------------------------ capture chains (C06)
+// a use of `name` inside compiler c can be resolved to an initialised local of c
+spec fn resolvable(c: Compiler, name: Seq<char>) -> bool {
+    exists|i: int| #[trigger] c.is_last_match(i, name) && c.locals[i].depth.is_some()
+}
+// following capture descriptor j of compiler c outwards ends at local i of compiler e
+spec fn chain(cs: Seq<Compiler>, c: int, j: int, e: int, i: int) -> bool
+    decreases c
+{
+    if e < 0 || c <= e || c >= cs.len() || !(0 <= j < cs[c].upvalues@.len()) { false }
+    else if c == e + 1 { cs[c].upvalues@[j].is_local && cs[c].upvalues@[j].index as int == i }
+    else { !cs[c].upvalues@[j].is_local && chain(cs, c - 1, cs[c].upvalues@[j].index as int, e, i) }
+}
+// chain only looks at compilers e+1..=c and at descriptors that exist
+proof fn lemma_chain_frame(a: Seq<Compiler>, b: Seq<Compiler>, c: int, j: int, e: int, i: int)
+    requires a.len() == b.len(), chain(a, c, j, e, i),
+        forall|k: int| e < k <= c ==> #[trigger] a[k].upvalues@.len() <= b[k].upvalues@.len() && b[k].upvalues@.subrange(0, a[k].upvalues@.len() as int) =~= a[k].upvalues@,
+    ensures chain(b, c, j, e, i)
+    decreases c
+{
+    assert(b[c].upvalues@.subrange(0, a[c].upvalues@.len() as int)[j] == a[c].upvalues@[j]);
+    if c > e + 1 {
+        lemma_chain_frame(a, b, c - 1, a[c].upvalues@[j].index as int, e, i);
+    }
+}
+spec fn capture_ok(old_cs: Seq<Compiler>, new_cs: Seq<Compiler>, e: int, i: int, j: int, name: Seq<char>) -> bool {
+    &&& 0 <= e < old_cs.len() - 1
+    &&& old_cs[e].is_last_match(i, name) && old_cs[e].locals[i].depth.is_some()
+    &&& forall|k: int| e < k < old_cs.len() - 1 ==> !resolvable(#[trigger] old_cs[k], name)
+    &&& new_cs[e].locals[i].is_captured
+    &&& chain(new_cs, old_cs.len() - 1, j, e, i)
+}
+spec fn captured_somewhere(old_cs: Seq<Compiler>, new_cs: Seq<Compiler>, j: int, name: Seq<char>) -> bool {
+    exists|e: int, i: int| capture_ok(old_cs, new_cs, e, i, j, name)
+}
+// what resolve_upvalue may change: `is_captured` flags and appended capture descriptors
+spec fn capture_frame(a: Compiler, b: Compiler) -> bool {
+    &&& locals_same_shape(a.locals@, b.locals@)
+    &&& a.upvalues@.len() <= b.upvalues@.len() && b.upvalues@.subrange(0, a.upvalues@.len() as int) =~= a.upvalues@
+    &&& a.chunk == b.chunk && a.scope_depth == b.scope_depth && a.kind == b.kind
 }
 
 // ================================================================== Parser (emitters, resolution across compilers)
@@ -721,6 +766,31 @@ impl Parser {
     //@  ensures forall|j: int| 0 <= j < old(self).cur().locals@.len() - 1 ==> final(self).cur().locals@[j] == old(self).cur().locals@[j]
     //@end
 
+    //@fn file=yarel/src/compiler.rs path=Parser::resolve_upvalue ret=r props=C06,C04
+    //@  rewrite R5
+    //@  requires old(self).pwf()
+    //@  ensures final(self).pwf(), final(self).compilers.len() == old(self).compilers.len(), old(self).has_error() ==> final(self).has_error()
+    //@  ensures forall|k: int| 0 <= k < old(self).compilers.len() ==> capture_frame(#[trigger] old(self).compilers@[k], final(self).compilers@[k])
+    //@  ensures r matches Some(j) ==> captured_somewhere(old(self).compilers@, final(self).compilers@, j as int, name.source@)
+    //@  ensures r is None ==> final(self).has_error() || forall|k: int| 0 <= k < old(self).compilers.len() - 1 ==> !resolvable(#[trigger] old(self).compilers@[k], name.source@)
+    //@  at body.start let ghost cs0 = self.compilers@; let ghost n = self.compilers@.len() as int; let ghost nm = name.source@;
+    //@  loop 0 invariant self.pwf(), self.compilers@ == cs0, cs0 == old(self).compilers@, n == cs0.len(), n >= 2, nm == name.source@, __k0 <= n - 1
+    //@  loop 0 invariant old(self).has_error() ==> self.has_error(), self.errors == old(self).errors
+    //@  loop 0 invariant forall|k: int| __k0 <= k < n - 1 ==> !resolvable(#[trigger] cs0[k], nm)
+    //@  loop 0 decreases __k0
+    //@  loop 1 iter it
+    //@  loop 1 invariant self.pwf(), self.compilers@.len() == n, cs0 == old(self).compilers@, n == cs0.len(), nm == name.source@, 0 <= enclosing < n - 1, current == enclosing + 1
+    //@  loop 1 invariant old(self).has_error() ==> self.has_error(), it.snapshot.start == current, it.snapshot.end == n
+    //@  loop 1 invariant forall|k: int| 0 <= k < n ==> capture_frame(#[trigger] cs0[k], self.compilers@[k])
+    //@  loop 1 invariant cs0[enclosing as int].is_last_match(i0 as int, nm) && cs0[enclosing as int].locals[i0 as int].depth.is_some() && self.compilers@[enclosing as int].locals[i0 as int].is_captured
+    //@  loop 1 invariant forall|k: int| enclosing < k < n - 1 ==> !resolvable(#[trigger] cs0[k], nm)
+    //@  loop 1 invariant it.index@ == 0 ==> index == i0
+    //@  loop 1 invariant it.index@ > 0 ==> chain(self.compilers@, current + it.index@ - 1, index as int, enclosing as int, i0 as int)
+    //@  after_stmt "self.compilers[enclosing].locals[index as usize].is_captured = true" let ghost i0 = index;
+    //@  at loop1.start let ghost before = self.compilers@; let ghost cidx = current + it.index@; let ghost idx_in = index;
+    //@  at loop1.end proof { let after = self.compilers@; assert(cidx == compiler); if it.index@ > 0 { lemma_chain_frame(before, after, cidx - 1, idx_in as int, enclosing as int, i0 as int); } }
+    //@  before_stmt "return Some(index)" proof { assert(capture_ok(cs0, self.compilers@, enclosing as int, i0 as int, index as int, nm)); assert(cs0 == old(self).compilers@ && nm == name.source@); assert(captured_somewhere(old(self).compilers@, self.compilers@, index as int, name.source@)); }
+    //@end
 }
 
 } // verus!
